@@ -384,7 +384,8 @@ def patches():
 # ---- the codec: an exported scenario performed on the real schedulers ------------------------------------------
 # the trace spec evaluates NoStartAfterDisposeReturned inside Track (so that a failure can be named), the others in the constraint
 TRACE_INVS = ["OnLoopThread", "NotEarly", "NoLostAction"]
-DESIGN_INVS = ["TypeOK", "D_OnLoopThread", "D_NotEarly", "D_NoStart", "D_NoLost", "D_AtMostOnce", "D_EndOK", "D_NoMissedWakeup"]
+DESIGN_INVS = ["TypeOK", "D_OnLoopThread", "D_NotEarly", "D_NoStart", "D_NoLost", "D_AtMostOnce", "D_EndOK", "D_NoMissedWakeup",
+               "D_CallerInsideAnotherLoop"]
 TRACE_CONSTS = dict(Items={1, 2, 3})
 UNIT = 1000          # trace times are in 1/1000 of a scenario tick (the monitor is unit-agnostic)
 VARIANTS_ALL = ("own", "caller", "early", "lose", "nowake", "inline")
@@ -664,6 +665,7 @@ def label_of(tr: List[Dict[str, Any]], upto: int, sc: Dict[str, Any], only_late:
         dr = [e for e in before if e["e"] == "dr" and e["i"] == i]
         dc = [e for e in before if e["e"] == "dc" and e["i"] == i]
         out["dispose_thread"] = dc[0]["th"] if dc else None
+        out["disposer_inside_another_loop"] = bool(dc) and dc[0]["th"] in sc.get("own", [])
         out["dispose_returned_before_start"] = bool(dr)
         # the failure name comes from which invariant rejects: only_late = accepted once NoStartAfterDisposeReturned is left out
         out["failure"] = "start_after_dispose_returned" if only_late else "start_rejected"
